@@ -85,7 +85,7 @@ _DTYPES = ['int', 'float', 'nan', 'bool', 'str', 'big']
 
 
 def _pipe(rng, tier):
-    return pipeline.gen_case(rng, tier)
+    return pipeline.gen_case(rng, tier, short=False)
 
 
 def cases(rng, tier):
